@@ -10,6 +10,7 @@ CONSTANTS
  MolIdx <- MCMolAll
  MsgKinds <- MCMsgNone
  MaxMsgs = 0
+ WithEnv = FALSE
  HDev = "none"
 INVARIANT ReadIsCurrent
 INVARIANT FsHoldsWrite
